@@ -154,6 +154,8 @@ def step (st : St) (op impl : String) : St × DrvOut :=
       let model := if impl == cur || cur == "-" then cur else if impl == fix || fix == "-" then fix else cur
       (st, { model })
     | _, _ => (st, { model := "bad-op" })
+  | "order" :: _ =>
+    (st, { model := "eq", spec := if impl == "eq" then "ok" else "FAIL the variable " ++ bytesStr (hexS (argOf toks "name")) ++ " does not override the file value through conf.Load: " ++ impl })
   | "leaf" :: _ =>
     let name := hexS (argOf toks "name")
     let pathS := argOf toks "path"
